@@ -10,7 +10,7 @@
 static int g_round = FE_TONEAREST;
 
 static vf_map dist;
-static int64_t n_pairs, n_succ, n_fail, n_sym;
+static int64_t n_pairs, n_succ, n_fail, n_sym, n_geo_bound;
 
 static void judge_pair(H3Index a, H3Index b, int64_t bfs /* -1 unknown */, uint64_t okey) {
     int64_t d = -7, d2 = -7;
@@ -19,6 +19,22 @@ static void judge_pair(H3Index a, H3Index b, int64_t bfs /* -1 unknown */, uint6
     if (g_round != FE_TONEAREST) fesetround(FE_TONEAREST);
     n_pairs++;
     if (e > 15) vf_violation("bad-code", "gridDistance", okey ^ vf_mix(b), "", "rc=%u", e);
+    if (!e && bfs < 0) {
+        /* no BFS for this pair: necessary conditions from geometry alone.  d = 0 only for a = b; d <= 2 only if b is in the
+         * geometric 2-ball of a; and d steps cannot bridge more than d times the largest centre-to-centre step, bounded here
+         * very generously by 4 cell widths of the larger of the two cells. */
+        vf_cell ca, cb;
+        char spec[96];
+        snprintf(spec, sizeof spec, "pair %016" PRIx64 " %016" PRIx64 " -1", a, b);
+        if ((d == 0) != (a == b))
+            vf_violation_spec(spec, "distance", "gridDistance", okey ^ vf_mix(b) ^ 21, "", "gridDistance(%016" PRIx64 ", %016" PRIx64 ")=%" PRId64 " for %s cells", a, b, d, a == b ? "identical" : "different");
+        else if (!vf_cell_load(a, &ca) && !vf_cell_load(b, &cb)) {
+            ld gc = acosl(fminl(1.0L, fmaxl(-1.0L, v3_dot(ca.c, cb.c)))), w = ca.width > cb.width ? ca.width : cb.width;
+            if (d >= 0 && (ld)d * 4 * w < gc)
+                vf_violation_spec(spec, "distance", "gridDistance", okey ^ vf_mix(b) ^ 22, "", "gridDistance(%016" PRIx64 ", %016" PRIx64 ")=%" PRId64 " but the centres are %.3Lg rad apart, more than %" PRId64 " steps of 4 cell widths (%.3Lg rad) can bridge", a, b, d, gc, d, w);
+            n_geo_bound++;
+        }
+    }
     if (!e) {
         n_succ++;
         if (bfs >= 0 && d != bfs) {
@@ -282,6 +298,26 @@ static void run(void) {
             }
         }
     }
+    /* digit-structured far pairs at fine resolutions: b is a with one coarse digit replaced, or with another base cell, or
+     * both plus another last digit — two cells that agree in a long run of fine digits and are far apart.  A comparison of
+     * indexes that looks at part of the bits only takes them for the same cell, for siblings or for neighbours. */
+    for (int res = 6; res <= 15; res++) {
+        int np = VF_T(150, 2500);
+        for (int i = 0; i < np; i++) {
+            H3Index a = vf_rand_cell(&r, res), b = a;
+            int how = (int)vf_below(&r, 4);
+            if (how != 1) {
+                int pos = 1 + (int)vf_below(&r, 3);
+                b = vf_set_digit(b, pos, (VF_DIGIT(b, pos) + 1 + (int)vf_below(&r, 5)) % 7);
+            }
+            if (how == 1 || how == 2) b = (b & ~((uint64_t)0x7f << 45)) | ((uint64_t)vf_below(&r, 122) << 45);
+            if (how == 3) b = vf_set_digit(b, res, (int)vf_below(&r, 7));
+            if (!ref_is_valid_cell(b) || b == a) continue;
+            vf_case("pair %016" PRIx64 " %016" PRIx64 " -1", a, b);
+            judge_pair(a, b, -1, vf_mix(a));
+            vf_add("pairs.structured_far", 1);
+        }
+    }
     vf_buf_free(d);
     /* the same judgements with the API calls made under the three directed rounding modes */
     {
@@ -303,6 +339,7 @@ static void run(void) {
     vf_add("pairs.success", n_succ);
     vf_add("pairs.failed", n_fail);
     vf_add("pairs.both_directions", n_sym);
+    vf_add("pairs.geometric_lower_bound_judged", n_geo_bound);
 }
 static void replay(const char *spec) {
     uint64_t a, b;
